@@ -2,4 +2,5 @@ SPECIFICATION SpecUnsafe
 CONSTANTS
   P = 2
   Max = 4
+  DrainMax = 64
 INVARIANT AlignedOrClosed
